@@ -100,6 +100,7 @@ def check(prog: Program, run: Run) -> None:
              "retargeting reaches all ancestors", floor=8)
     run.rule("C10.G3", "loaders never read a local that may be unassigned", floor=100)
     _lookup(prog, run)
+    _fragment_lists(prog, run)
     _ownership(prog, run)
     _ref_fields(prog, run)
     _phases(prog, run)
@@ -109,12 +110,83 @@ def check(prog: Program, run: Run) -> None:
 
 
 # ----------------------------------------------------------------------- R1
+def _fragment_lists(prog: Program, run: Run) -> None:
+    """The document-fragment list handed to a parser is shared with the caller (and with the
+    OdxLinkIds built from it): a parser may only extend a private copy."""
+    R = "C10.R1"
+    MUT = ("append", "extend", "insert", "pop", "remove", "clear", "sort", "reverse")
+    n = 0
+    for f in prog.iter_functions():
+        for pn in f.params():
+            ann = f.param_annotation(pn)
+            if ann is None or "OdxDocFragment" not in ast.unparse(ann) or \
+                    "List" not in ast.unparse(ann):
+                continue
+            muts = []
+            for x in walk_no_nested(f.node):
+                if isinstance(x, ast.Call) and isinstance(x.func, ast.Attribute) and \
+                        x.func.attr in MUT and isinstance(x.func.value, ast.Name) and \
+                        x.func.value.id == pn:
+                    muts.append(x)
+                elif isinstance(x, ast.AugAssign) and isinstance(x.target, ast.Name) and \
+                        x.target.id == pn:
+                    muts.append(x)
+                elif isinstance(x, (ast.Assign, ast.Delete)) and any(
+                        isinstance(t, ast.Subscript) and isinstance(t.value, ast.Name) and
+                        t.value.id == pn for t in x.targets):
+                    muts.append(x)
+            if not muts:
+                continue
+            cfg = CFG(f.node)
+            fresh = [x for x in walk_no_nested(f.node) if isinstance(x, ast.Assign) and len(
+                x.targets) == 1 and isinstance(x.targets[0], ast.Name) and x.targets[0].id == pn
+                and (isinstance(x.value, (ast.List, ast.BinOp, ast.ListComp)) or (
+                    isinstance(x.value, ast.Call) and call_name(x.value) in (
+                        "copy", "list", "deepcopy")) or (
+                            isinstance(x.value, ast.Subscript) and isinstance(
+                                x.value.slice, ast.Slice)))]
+            for m in muts:
+                n += 1
+                st = _stmt(f.node, m) if not isinstance(m, ast.stmt) else m
+                mn = cfg.node_of(st)
+                if any(cfg.dominates(cfg.node_of(a), mn) for a in fresh):
+                    run.ok(R, f.qual, f"`{stmt_key(st)}` extends a private copy of {pn}",
+                           f"{f.module.rel}:{m.lineno}")
+                else:
+                    run.violation(R, f.qual, f"shared-fragment-list-{pn}",
+                                  f"`{stmt_key(st)}` mutates the caller's `{pn}` list: the same "
+                                  "list object is the doc_fragments of the container's OdxLinkId "
+                                  "and is handed to the next layer, so all layers of a container "
+                                  "end up with one growing fragment list and identical local IDs "
+                                  "in sibling layers bind across layers",
+                                  f"{f.module.rel}:{m.lineno}", stmt_key(st))
+    if n == 0:
+        run.error(R, "no parser extends its document-fragment list (anchor: DiagLayerRaw.from_et)")
+
+
 def _lookup(prog: Program, run: Run) -> None:
     R = "C10.R1"
     for nm in ("resolve", "resolve_lenient"):
         f = prog.func(f"OdxLinkDatabase.{nm}")
         C = f"OdxLinkDatabase.{nm}"
         loops = [l for l in walk_no_nested(f.node) if isinstance(l, ast.For)]
+        if not loops:
+            other = "resolve_lenient" if nm == "resolve" else "resolve"
+            dele = [x for x in walk_no_nested(f.node) if isinstance(x, ast.Call) and isinstance(
+                x.func, ast.Attribute) and x.func.attr == other and isinstance(
+                    x.func.value, ast.Name) and x.func.value.id == "self"]
+            og = prog.func(f"OdxLinkDatabase.{other}")
+            if dele and any(isinstance(l, ast.For) for l in walk_no_nested(og.node)):
+                run.ok(R, C, f"delegates the fragment search to {other}() (checked there)", f.loc)
+                if nm == "resolve":
+                    tail = [x for x in f.node.body if isinstance(x, ast.Expr) and isinstance(
+                        x.value, ast.Call) and call_name(x.value) == "odxraise"]
+                    if tail:
+                        run.ok(R, C, "an unresolvable reference is reported", f.loc)
+                    else:
+                        run.violation(R, C, "dangling", "a dangling reference is not reported",
+                                      f.loc)
+                continue
         if len(loops) != 1:
             raise AnalysisError(f"{C}: fragment loop not found")
         lp = loops[0]
